@@ -262,7 +262,10 @@ impl<'a> Searcher<'a> {
                     if looks_like_regexp(part) {
                         // Create a regex from the part
                         let rx_string = format!("^{}$", part);
-                        let rx = Regex::new(&rx_string).unwrap();
+                        let rx = match Regex::new(&rx_string) {
+                            Ok(rx) => rx,
+                            Err(_) => error_exit(part, "Incorrect regex expression in the root path"),
+                        };
                         let mut tmp = vec![];
 
                         if ext_roots.is_empty() {
